@@ -133,7 +133,7 @@ func (u *Unit) heapOf(s *State, key string) string {
 		h = u.entryHeap(key)
 	}
 	if u.readLog != nil {
-		u.readLog[h] = u.heapSort(key)
+		u.readLog[key] = h
 	}
 	return h
 }
